@@ -772,3 +772,74 @@ def spec_build_once(fns, consts):
 
 
 SPECS["C11"] = [spec_build_once]
+
+
+# ------------------------------------------------------------------ C19: man page section guards and hidden filters
+
+MANGEN_HIDE_CLOSURES = [
+    ("synopsis::{closure#1}", "options/positionals in the synopsis"),
+    ("subcommands::{closure#0}", "subcommands section entries"),
+    ("get_possible_values::{closure#0}", "possible values"),
+    ("generate::{closure#0}", "per-subcommand pages"),
+    ("_render_options_section::{closure#0}", "help headings"),
+    ("_render_options_section::{closure#3}", "options section entries"),
+    ("app_has_arguments::{closure#0}", "has-arguments predicate"),
+    ("app_has_subcommands::{closure#0}", "has-subcommands predicate"),
+]
+
+
+def spec_mangen(fns, consts):
+    """clap_mangen: (a) each hidden-item filter closure is exactly `!item.is_hide_set()`;
+    (b) Man::render emits title, name, synopsis, description, then OPTIONS iff app_has_arguments,
+    SUBCOMMANDS iff app_has_subcommands, EXTRA iff an after-help exists, VERSION iff app_has_version,
+    AUTHORS iff an author is set - in that order, each at most once - and then writes the page."""
+    con = contracts.Contracts(fns, default_pure=True)
+    ctx = symex.Ctx(consts, con)
+    obs, enc = [], []
+
+    def shape(msg):
+        obs.append({"fn": "clap_mangen", "block": "shape", "kind": "spec", "target": "mangen", "msg": msg, "pc": [], "neg": "true"})
+    for i, (suffix, what) in enumerate(MANGEN_HIDE_CLOSURES):
+        c = [f for n, f in fns.items() if n == suffix or n.endswith("::" + suffix)]
+        if len(c) != 1:
+            shape(f"hidden filter for {what} ({suffix}) not found")
+            continue
+        try:
+            fn = c[0].get()
+            ex = symex.Exec(ctx, fn, [("opq", f"env{i}"), ("opq", f"item{i}")]).run()
+            hide = _key_sym(ctx, rf"::is_hide_set\(item{i}\)$", "Bool")
+            for pc, val in ex.returns:
+                obs.append({"fn": fn.name, "block": "ret", "kind": "spec", "target": "mangen", "msg": f"{what}: kept <=> not hidden", "pc": list(pc), "neg": f"(not (= {val[1]} (not {hide})))"})
+            enc.append(_enc(fn, ex, len(ex.returns)))
+        except Unsupported as e:
+            shape(f"hidden filter for {what} no longer has the reference shape: " + str(e)[:80])
+    r = [f for n, f in fns.items() if n.endswith(">::render") and "lib.rs" in n]
+    if len(r) != 1:
+        raise Unsupported("clap_mangen: Man::render not found exactly once")
+    fn = r[0].get()
+    ex = symex.Exec(ctx, fn, [("opq", "self"), ("opq", "w")]).run(cut_loops=True)
+    order = ["_render_title", "_render_name_section", "_render_synopsis_section", "_render_description_section", "_render_options_section",
+             "_render_subcommands_section", "_render_extra_section", "_render_version_section", "_render_authors_section"]
+    guards = {"_render_options_section": r"^app_has_arguments\(", "_render_subcommands_section": r"^app_has_subcommands\(", "_render_version_section": r"^app_has_version\("}
+    for (pc, val), ca in zip(ex.returns, ex.return_callargs):
+        names = [c[0].split("::")[-1] for c in ca]
+        secs = [n for n in names if n in order]
+        ok = secs == [s for s in order if s in secs] and all(secs.count(s) == 1 for s in secs) and secs[:4] == order[:4] and any(n == "to_writer" for n in names)
+        obs.append({"fn": fn.name, "block": "ret", "kind": "spec", "target": "mangen", "msg": "sections are rendered once each, in the fixed order, then written", "pc": list(pc), "neg": "false" if ok else "true"})
+        for sec, rx in guards.items():
+            g = [ctx.keys[k] for k in ctx.keys if re.search(rx, k)]
+            if len(g) != 1:
+                shape(f"guard of {sec} not found")
+                continue
+            present = sec in secs
+            # section present on this path => guard true; absent => guard false
+            obs.append({"fn": fn.name, "block": "ret", "kind": "spec", "target": "mangen", "msg": f"{sec} is rendered iff its guard holds", "pc": list(pc),
+                        "neg": f"(not {g[0]})" if present else g[0]})
+    enc.append(_enc(fn, ex, len(ex.returns)))
+    for o in obs:
+        o.setdefault("target", "mangen")
+    return ctx, obs, enc, con
+
+
+spec_mangen.crate = "clap_mangen"
+SPECS["C19"] = [spec_mangen]
